@@ -54,7 +54,7 @@ def programs(tier):
         for unit in ("subroutine", "function", "module"):
             for kind, table in (("spec", T.SPEC), ("exec", T.EXEC), ("cons", T.CONS)):
                 for e in table:
-                    if unit == "module" and e[0] in ("intent", "optional"):
+                    if unit == "module" and e[0] in ("intent", "optional", "stmt_function", "value_attr"):
                         continue
                     out.append(_prog_for(kind, e[0], unit))
         d3 = ["if_else", "do_label", "do_shared", "select_case", "do_named", "block", "associate"]
